@@ -1,5 +1,7 @@
 package lib
 
+import "strings"
+
 // MockCatalogue: schemas generated with generate_mock=true (C20).  Recursive response types are
 // included: the generator carries the set of message types being filled and leaves a field whose type
 // is on that path unset (a message-valued map: empty).
@@ -178,6 +180,148 @@ func MockCatalogue() []*Request {
 			M("Outer", F("title", 1, "string")).WithNested(M("Inner", F("label", 1, "string"), F("hits", 2, "int64")))},
 			Svc("A", "/a", RPC("WalkA", q(id, "Req"), q(id, "Node"), "POST", "/walk"), RPC("InnerA", q(id, "Req"), q(id, "Outer.Inner"), "POST", "/inner")),
 			Svc("B", "/b", RPC("WalkB", q(id, "Req"), q(id, "Node"), "POST", "/walk"), RPC("InnerB", q(id, "Req"), q(id, "Outer.Inner"), "POST", "/inner"), RPC("OuterB", q(id, "Req"), q(id, "Outer"), "POST", "/outer"))))
+	}
+	out = append(out, MockRulesCatalogue()...)
+	out = append(out, MockHostileExamples()...)
+	return out
+}
+
+// MockHostileExamples: the mock file prints every example text into a Go string literal of the fieldExamples
+// table.  Texts that keep the literal parseable: printf verbs, back quotes, single quotes, template and comment
+// markers (the value has to come back unchanged); texts with a backslash followed by a Go escape character
+// (the literal is interpreted: `R&D\test` comes back with a TAB — known finding z3:mock-example-go-escape);
+// texts that make the source unparsable are refused at generation (one request each).
+func MockHostileExamples() []*Request {
+	var out []*Request
+	q := func(id, t string) string { return id + ".v1." + t }
+	mk := func(id string, resp *Message) *Request {
+		r := mockReq(id, nil, []*Message{M("Req", F("id", 1, "string")), resp},
+			&Service{Name: "S", BasePath: "/" + id, HasConfig: true, Methods: []*Method{RPC("GetResp", q(id, "Req"), q(id, "Resp"), "POST", "/get")}})
+		r.Tags = append(r.Tags, "hostile-text", "examples")
+		return r
+	}
+	plain := M("Resp", F("title", 1, "string")) // (one example per field: the check sees the value SET of 64 calls)
+	i := 0
+	for _, t := range buildTexts() {
+		if strings.Contains(t, `\`) {
+			continue
+		}
+		plain.Fields = append(plain.Fields, F("f"+strings.ToLower(hostileIdent(i)), int32(i+2), "string", Examples(t)))
+		i++
+	}
+	plain.Fields = append(plain.Fields, F("n", 100, "int64", Examples("%d", "7")), F("ok", 101, "bool", Examples("%t", "false")), F("ratio", 102, "double", Examples("%f", "0.5")))
+	out = append(out, mk("mexhostile", plain))
+	esc := M("Resp")
+	for k, t := range []string{`R&D\test`, `back\\slash`, `new\nline`, `\u0041`, `tab\there`, `q\"uote`, `\x41\101`} {
+		esc.Fields = append(esc.Fields, F("f"+string(rune('a'+k)), int32(k+1), "string", Examples(t)))
+	}
+	esc.Fields = append(esc.Fields, F("plain", 50, "string", Examples("no escape", "é")), F("n", 51, "int64", Examples(`\x37`, "8")))
+	out = append(out, mk("mexescape", esc))
+	for k, t := range quoteTexts {
+		out = append(out, mk("mexquote"+string(rune('a'+k)), M("Resp", F("title", 1, "string", Examples(t)))))
+	}
+	return out
+}
+
+// mockMultiByte: example texts whose byte length, UTF-16 length and character count all differ.
+var mockMultiByte = []string{"Zürich", "Málaga", "日本", "日本語", "😀", "👍🏽", "é", "naïve café", "Ω", " ", "ß", "İ", "\u200b", "e\u0301"}
+
+// MockRulesCatalogue: example values x buf.validate rules on the SAME response field.  The property says
+// a field that declares examples takes one of them; the rules describe what the API accepts, and the mock
+// generator does not read them.  A generator that starts to (clamping, filtering, rounding into range)
+// has to keep "one of the examples" for every example that satisfies the rule — in particular for
+// examples that sit exactly ON a limit when the limit is counted in characters (protovalidate, OpenAPI
+// maxLength) and the value is measured in bytes or UTF-16 units.
+func MockRulesCatalogue() []*Request {
+	var out []*Request
+	add := func(r *Request) { r.Tags = append(r.Tags, "examples-x-rules"); out = append(out, r) }
+	q := func(id, t string) string { return id + ".v1." + t }
+	svc := func(id string, outs ...string) *Service {
+		s := &Service{Name: "S", BasePath: "/" + id, HasConfig: true}
+		for _, t := range outs {
+			s.Methods = append(s.Methods, RPC("Get"+t, q(id, "Req"), q(id, t), "POST", "/get/"+t))
+		}
+		return s
+	}
+	req := func() *Message { return M("Req", F("id", 1, "string")) }
+	chars := func(s string) uint64 { return uint64(len([]rune(s))) }
+	num := func(s string) *string { return &s }
+
+	{ // string length rules, examples exactly on the limit (in characters): one field per text and rule
+		id := "mexlen"
+		atMax, atMin, atLen, under, both := M("AtMax"), M("AtMin"), M("AtLen"), M("UnderMax"), M("MinMax")
+		for i, t := range mockMultiByte {
+			n := int32(i + 1)
+			name := "f" + string(rune('a'+i))
+			atMax.Fields = append(atMax.Fields, F(name, n, "string", Examples(t), WithRules(&Rules{MaxLen: U(chars(t))})))
+			atMin.Fields = append(atMin.Fields, F(name, n, "string", Examples(t), WithRules(&Rules{MinLen: U(chars(t))})))
+			atLen.Fields = append(atLen.Fields, F(name, n, "string", Examples(t), WithRules(&Rules{Len: U(chars(t))})))
+			under.Fields = append(under.Fields, F(name, n, "string", Examples(t, "x"), WithRules(&Rules{MaxLen: U(chars(t) + 1)})))
+			both.Fields = append(both.Fields, F(name, n, "string", Examples(t), WithRules(&Rules{MinLen: U(chars(t)), MaxLen: U(chars(t))})))
+		}
+		add(mockReq(id, nil, []*Message{req(), atMax, atMin, atLen, under, both}, svc(id, "AtMax", "AtMin", "AtLen", "UnderMax", "MinMax")))
+	}
+	{ // the shapes of the published examples: short, tightly limited fields with several examples, ASCII ones on the
+		// limit, and fields with a limit but no examples (default generators)
+		id := "mexcity"
+		add(mockReq(id, nil, []*Message{req(),
+			M("City", F("city", 1, "string", Examples("Zürich", "Málaga", "Lisbon"), WithRules(&Rules{MaxLen: U(6)})),
+				F("country", 2, "string", Examples("日本"), WithRules(&Rules{MaxLen: U(2)})),
+				F("currency", 3, "string", Examples("EUR", "USD", "¥"), WithRules(&Rules{MinLen: U(1), MaxLen: U(3)})),
+				F("flag", 4, "string", Examples("🇨🇭"), WithRules(&Rules{MaxLen: U(2)})),
+				F("ascii", 5, "string", Examples("abcdef", "abc", ""), WithRules(&Rules{MaxLen: U(6)})),
+				F("label", 6, "string", WithRules(&Rules{MaxLen: U(40)})),
+				F("user_name", 7, "string", WithRules(&Rules{MinLen: U(2), MaxLen: U(64)})),
+				F("zero", 8, "string", Examples("anything"), WithRules(&Rules{MaxLen: U(0)})))}, svc(id, "City")))
+	}
+	{ // examples that do NOT satisfy the rule of their field (an inconsistent definition: still "one of the examples")
+		id := "mexoutside"
+		add(mockReq(id, nil, []*Message{req(),
+			M("Resp", F("long", 1, "string", Examples("far too long", "ok"), WithRules(&Rules{MaxLen: U(3)})),
+				F("short", 2, "string", Examples("a", "abcd"), WithRules(&Rules{MinLen: U(3)})),
+				F("exact", 3, "string", Examples("ab", "abc"), WithRules(&Rules{Len: U(3)})),
+				F("low", 4, "int64", Examples("5", "500", "-7"), WithRules(&Rules{NumGte: num("10"), NumLte: num("100")})),
+				F("open", 5, "int64", Examples("10", "100", "11"), WithRules(&Rules{NumGt: num("10"), NumLt: num("100")})),
+				F("ratio", 6, "double", Examples("0.5", "1.5", "-0.25"), WithRules(&Rules{NumGte: num("0"), NumLte: num("1")})),
+				F("edge", 7, "double", Examples("0", "1", "0.999"), WithRules(&Rules{NumGt: num("0"), NumLt: num("1")})),
+				F("big", 8, "int64", Examples("9223372036854775807", "-9223372036854775808"), WithRules(&Rules{NumGte: num("0")})))}, svc(id, "Resp")))
+	}
+	{ // in / const next to examples: inside the set, outside it, and a field with in/const and no examples
+		id := "mexin"
+		add(mockReq(id, nil, []*Message{req(),
+			M("Resp", F("state", 1, "string", Examples("open", "closed"), WithRules(&Rules{StrIn: []string{"open", "closed", "merged"}})),
+				F("other", 2, "string", Examples("draft"), WithRules(&Rules{StrIn: []string{"open", "closed"}})),
+				F("fixed", 3, "string", Examples("v1"), WithRules(&Rules{StrConst: Str("v1")})),
+				F("unfixed", 4, "string", Examples("v2", "v1"), WithRules(&Rules{StrConst: Str("v1")})),
+				F("kind", 5, "string", WithRules(&Rules{StrConst: Str("invoice")})),
+				F("level", 6, "int64", Examples("1", "3"), WithRules(&Rules{NumIn: []string{"1", "2", "3"}})),
+				F("odd", 7, "int64", Examples("4"), WithRules(&Rules{NumIn: []string{"1", "2", "3"}})),
+				F("seven", 8, "int64", Examples("7", "8"), WithRules(&Rules{NumConst: num("7")})),
+				F("answer", 9, "int64", WithRules(&Rules{NumConst: num("41")})),
+				F("half", 10, "double", Examples("0.5", "0.25"), WithRules(&Rules{NumIn: []string{"0.5", "1.5"}})),
+				F("not", 11, "string", Examples("bad", "good"), WithRules(&Rules{StrNotIn: []string{"bad"}})),
+				F("mail", 12, "string", Examples("ann@example.com", "not an address"), WithRules(&Rules{WellKnown: "email"})),
+				F("code", 13, "string", Examples("AB-12", "zz"), WithRules(&Rules{Pattern: Str("^[A-Z]{2}-[0-9]{2}$")})))}, svc(id, "Resp")))
+	}
+	{ // the same at every position the mock fills: nested direct message, map-value message, two levels down
+		id := "mexrulesdeep"
+		add(mockReq(id, nil, []*Message{req(),
+			M("Place", F("city", 1, "string", Examples("Zürich", "Málaga"), WithRules(&Rules{MaxLen: U(6)})), F("pop", 2, "int64", Examples("5", "2000000"), WithRules(&Rules{NumLte: num("1000000")}))),
+			M("Region", F("capital", 1, "", Msg(q(id, "Place"))), F("towns", 2, "", Msg(q(id, "Place")), MapOf("string")), F("code", 3, "string", Examples("日本"), WithRules(&Rules{Len: U(2)}))),
+			M("Resp", F("region", 1, "", Msg(q(id, "Region"))), F("by", 2, "", Msg(q(id, "Region")), MapOf("int32")), F("title", 3, "string", WithRules(&Rules{MaxLen: U(5)})))},
+			svc(id, "Resp", "Region", "Place")))
+	}
+	{ // multi-byte and empty examples without any rule; only-empty example lists; one text several times
+		id := "mexutf8"
+		all := M("All", F("any", 1, "string", Examples(mockMultiByte...)))
+		per := M("Per")
+		for i, t := range mockMultiByte {
+			per.Fields = append(per.Fields, F("f"+string(rune('a'+i)), int32(i+1), "string", Examples(t)))
+		}
+		add(mockReq(id, nil, []*Message{req(), all, per,
+			M("Empties", F("only_empty", 1, "string", Examples("")), F("two_empty", 2, "string", Examples("", "")), F("mixed", 3, "string", Examples("", "é", " ")),
+				F("spaces", 4, "string", Examples(" ", "  ", "\t")), F("same", 5, "string", Examples("日本", "日本")), F("n", 6, "int64", Examples("")), F("ok", 7, "bool", Examples("")),
+				F("ratio", 8, "double", Examples("")), F("digits", 9, "int64", Examples("７", "٣", "7")))}, svc(id, "All", "Per", "Empties")))
 	}
 	return out
 }
